@@ -663,6 +663,86 @@ def bulk_sites(C):
     return sites
 
 
+def _has_self(e):
+    """the expression is `self` or a literal collection / comprehension / conditional that contains `self`"""
+    if isinstance(e, ast.Name) and e.id == 'self':
+        return True
+    if isinstance(e, (ast.List, ast.Tuple, ast.Set)):
+        return any(_has_self(x) for x in e.elts)
+    if isinstance(e, (ast.ListComp, ast.GeneratorExp, ast.SetComp)):
+        return _has_self(e.elt)
+    if isinstance(e, ast.IfExp):
+        return _has_self(e.body) or _has_self(e.orelse)
+    if isinstance(e, ast.Starred):
+        return _has_self(e.value)
+    return False
+
+
+def returns_self(C):
+    """every method of every class in the MRO that hands out the object itself: `return self` / `yield self` / a collection
+    containing self, or binds it to a local that may be returned (`u = self.copy() if copy else self`)."""
+    out = []
+    for (cls, name), fn in sorted(C.defs.items()):
+        for s in ast.walk(fn):
+            if isinstance(s, (ast.Return, ast.Yield, ast.YieldFrom)) and s.value is not None and _has_self(s.value):
+                out.append(f'{cls}.{name}')
+            elif isinstance(s, (ast.Assign, ast.AnnAssign)) and s.value is not None and _has_self(s.value):
+                t = s.targets[0] if isinstance(s, ast.Assign) else s.target
+                if isinstance(t, ast.Name):
+                    out.append(f'{cls}.{name}#{t.id}')
+            elif isinstance(s, ast.NamedExpr) and _has_self(s.value):
+                out.append(f'{cls}.{name}#{s.target.id}')
+    return sorted(set(out))
+
+
+def split_shape(C):
+    """`split` must be exactly: return [self.substructure(c, recalculate_hydrogens=False) for c in self.connected_components]
+    (the correspondence expands a real `split()` into that sequence of modelled operations)."""
+    fn = C.defs.get(('MoleculeContainer', 'split'))
+    if fn is None:
+        raise TranslatorError('MoleculeContainer.split not found')
+    body = [s for s in fn.body if not (isinstance(s, ast.Expr) and isinstance(s.value, ast.Constant))]
+    want = 'return [self.substructure(c, recalculate_hydrogens=False) for c in self.connected_components]'
+    if len(body) != 1 or not isinstance(body[0], ast.Return) or not isinstance(body[0].value, ast.ListComp):
+        raise TranslatorError(f'MoleculeContainer.split: unrecognised shape `{ast.unparse(fn)[-200:]}`')
+    lc = body[0].value
+    g = lc.generators[0]
+    ok = (len(lc.generators) == 1 and not g.ifs and isinstance(g.target, ast.Name) and is_self_attr(g.iter, 'connected_components')
+          and isinstance(lc.elt, ast.Call) and is_self_attr(lc.elt.func, 'substructure') and len(lc.elt.args) == 1
+          and isinstance(lc.elt.args[0], ast.Name) and lc.elt.args[0].id == g.target.id
+          and [(k.arg, getattr(k.value, 'value', '?')) for k in lc.elt.keywords] == [('recalculate_hydrogens', False)])
+    if not ok:
+        raise TranslatorError(f'MoleculeContainer.split: `{ast.unparse(body[0])}` is not `{want}`')
+    return True
+
+
+WRAPPERS = [('MoleculeContainer', 'augmented_substructure', 'substructure'), ('MoleculeContainer', 'augmented_substructures', 'substructure'),
+            ('MoleculeContainer', 'split', 'substructure'), ('MoleculeContainer', '__and__', 'substructure'),
+            ('MoleculeContainer', '__sub__', 'substructure'), ('Graph', '__copy__', 'copy'), ('Graph', '__or__', 'union'),
+            ('Graph', '__ior__', 'union')]
+
+
+def wrapper_delegation(C):
+    """the derived constructors: every value they return is a call of the modelled constructor on `self` (or a list
+    comprehension of such calls); anything else is not understood."""
+    out = []
+    for cls, name, prim in WRAPPERS:
+        fn = C.defs.get((cls, name))
+        if fn is None:
+            raise TranslatorError(f'derived constructor {cls}.{name} not found')
+        rets = [s for s in ast.walk(fn) if isinstance(s, ast.Return)]
+        if not rets:
+            raise TranslatorError(f'{cls}.{name}: no return')
+        for r in rets:
+            v = r.value
+            if isinstance(v, ast.ListComp):
+                v = v.elt
+            if not (isinstance(v, ast.Call) and is_self_attr(v.func, prim)):
+                raise TranslatorError(f'{cls}.{name}: `{ast.unparse(r)}` does not return self.{prim}(...)')
+        out.append((f'{cls}.{name}', prim))
+    return out
+
+
 def extract():
     C = Classes()
     direct, reads_of, lookup = helper_reads(C)
@@ -746,7 +826,8 @@ def extract():
                 init_slots=init_slots, copy_slots=copy_slots, sub_slots=sub_slots, atoms_deep=atoms_deep,
                 bonds_deep=bonds_deep, sub_atoms_deep=sub_atoms_deep, sub_bonds_deep=sub_bonds_deep, sub_calls=sub_calls,
                 meta_copied=meta_copied, reaction_meta_copied=reaction_meta_copied,
-                reaction_mols_copied=reaction_mols_copied, shares_xy=shares, ecopy_slots=ecopy_slots, bulk=bulk_sites(C))
+                reaction_mols_copied=reaction_mols_copied, shares_xy=shares, ecopy_slots=ecopy_slots, bulk=bulk_sites(C),
+                returns_self=returns_self(C), split_per_component=split_shape(C), wrappers=wrapper_delegation(C))
 
 
 def render(d, data_only_namespace=None):
@@ -823,6 +904,15 @@ def render(d, data_only_namespace=None):
     w(f'def reactionCopyMetaCopied : Bool := {b(d.get("reaction_meta_copied", True))}')
     w(f'def reactionCopyMoleculesCopied : Bool := {b(d.get("reaction_mols_copied", True))}')
     w(f'def elementCopySharesXY : Bool := {b(d["shares_xy"])}')
+    w('')
+    w('/-- every method of the classes in `MoleculeContainer.__mro__` that hands out the object itself (`return self`, a collection')
+    w('containing `self`, or a local bound to `self`: `Class.method#local`) -/')
+    w(f'def returnsSelf : List String := {lean_list(map(lean_str, d.get("returns_self", [])))}')
+    w('/-- `split` is literally `[self.substructure(c, recalculate_hydrogens=False) for c in self.connected_components]` -/')
+    w(f'def splitPerComponent : Bool := {b(d.get("split_per_component", True))}')
+    w('/-- derived constructors and the modelled constructor each of their return values is a call of -/')
+    w('def derivedConstructors : List (String × String) := [' +
+      ', '.join(f'({lean_str(a)}, {lean_str(p)})' for a, p in d.get('wrappers', [])) + ']')
     w('')
     w('/-- every other `flush_cache(...)` call site of the package: (file, Class.method, keep_sssr, keep_components) -/')
     w('def bulkSites : List (String × String × Flag × Flag) := [')
